@@ -121,6 +121,7 @@ def _solver_args(it, dom, rec, w, method, n, flags_symbolic, max_steps):
         ov["first_step"] = some(w.h0) if w.h0 is not None else NONE
         ov["max_step"] = some(w.hmax) if w.hmax is not None else NONE
     ov["max_steps"] = max_steps
+    ov.update(SOLVER_OVERRIDES.get(method, {}))
     slf = M.solver_struct(it, method, ov)
     f = M.OdeModel(dom, rec, n)
     so = M.SolOutModel(rec, _flag_policy(flags_symbolic))
@@ -200,7 +201,16 @@ def out_params(node, out=None):
     return out
 
 
-def body_paths(method, backward=False, with_max_step=True, n=1, inv=None, max_paths=3000, flags_symbolic=True,
+# configuration bounds per method (stated in the evidence): BDF's simplified Newton loop is unrolled once or twice
+SOLVER_OVERRIDES = {"BDF": {"newton_maxiter": 1}}
+
+HAVOC_OVERRIDES = {
+    # BDF's order is a loop-carried small integer that bounds loops: enumerate it instead of abstracting it
+    "BDF": {"order": lambda it, dom: it.choose([1, 2, 3, 4, 5], "order")},
+}
+
+
+def body_paths(method, backward=False, with_max_step=True, n=1, inv=None, max_paths=6000, flags_symbolic=True,
                tiny_step=False):
     """Enumerate all feasible paths through ONE main-loop iteration from an arbitrary loop-head
     state satisfying `inv(env, world, dom)`."""
@@ -229,7 +239,8 @@ def body_paths(method, backward=False, with_max_step=True, n=1, inv=None, max_pa
                 v = e.vars[name]
                 if v is it.uninit:
                     continue
-                e.vars[name] = havoc_value(dom, it, name, v)
+                ov = HAVOC_OVERRIDES.get(method, {}).get(name)
+                e.vars[name] = ov(it, dom) if ov else havoc_value(dom, it, name, v)
                 hv.append(name)
             state["havoced"] = hv
             rec.ode_calls.clear()
